@@ -11,6 +11,7 @@ UNITS = {
     'REASM': dict(template='reasm.rs', rlimit=30),
     'TXN': dict(template='txn.rs', rlimit=30),
     'SERHDR': dict(template='serhdr.rs', rlimit=30),
+    'SESSENG': dict(template='sesseng.rs', rlimit=40),
 }
 
 COMMON_TRUSTED = [
@@ -81,7 +82,7 @@ PROPS = {
             'non-transfer performatives larger than the frame are cut into pseudo-frames by start_send: see known finding / DESIGN D9 (not decided by a contract here)',
             'decoding under arbitrary read fragmentation is tokio_util LengthDelimitedCodec + FramedRead (third party), not verified']),
     'C01': dict(
-        units=['FRAMEENC', 'SESSION', 'SENDSPLIT', 'LINK', 'REASM'],
+        units=['FRAMEENC', 'SESSION', 'SENDSPLIT', 'LINK', 'REASM', 'SESSENG'],
         lemmas={'SENDSPLIT': ['lemma_link_expected', 'lemma_link_mids'], 'FRAMEENC': ['lemma_expected_properties', 'lemma_mids_payload']}, kani=[], level='proof', title='End-to-end delivery (sequential stages only)',
         assumptions=[ASYNC, ENGINE,
             'only the sequential stages are under contract: session hold-back/stamping (SESSION) and frame splitting (FRAMEENC); link-level split, reassembly and the codec round trip are separate units where built',
@@ -137,7 +138,8 @@ PROPS = {
             'slab::Slab is modelled as a partial map whose vacant key is unoccupied (trusted stand-in)',
             'concurrent attaches are serialised by the session engine (not verified)']),
     'C13': dict(
-        units=['SESSION', 'LINK'], kani=[], level='proof', title='Session and link lifecycles',
+        units=['SESSION', 'LINK', 'SESSENG'],
+        lemmas={'SESSENG': ['lemma_ext_trans']}, kani=[], level='proof', title='Session and link lifecycles',
         assumptions=[ASYNC, ENGINE,
             'answered-no-later-than / returns-only-after clauses of the property are liveness statements and are not decided',
             'Drop impls racing with the engine are not decided']),
@@ -147,7 +149,7 @@ PROPS = {
             'never-blocks-forever and isolation between connections are not decided',
             'handlers of peer input carry no precondition on the peer-controlled arguments']),
     'C07': dict(
-        units=['SESSION'], kani=[], level='proof',
+        units=['SESSION', 'SESSENG'], kani=[], level='proof',
         title='Session flow control',
         assumptions=[
             'the session engine calls these functions in the order frames arrive/are queued (select! loop not verified)',
